@@ -9,17 +9,24 @@ Import ListNotations.
 Open Scope N_scope.
 
 (** every state read by an init expression is declared earlier *)
-Definition inits_read_earlier (en : enc) : Prop :=
-  forall l1 st l2 e y st', s_states (e_sys en) = l1 ++ st :: l2 -> st_init st = Some e ->
+Definition reads_earlier (en : enc) (sts : list state) : Prop :=
+  forall l1 st l2 e y st', sts = l1 ++ st :: l2 -> st_init st = Some e ->
     In y (symbols_of e) -> find_state en y = Some st' -> In st' l1.
+
+Definition inits_read_earlier (en : enc) : Prop := reads_earlier en (s_states (e_sys en)).
 
 Section Wf2.
   Variable en : enc.
   Hypothesis Hb : enc_basic en.
   Hypothesis Ho : enc_order en.
   Hypothesis Hn : name_inj en.
-  Hypothesis Hre : inits_read_earlier en.
   Let sy := e_sys en.
+  (** the order in which the states are emitted: any arrangement of the states of the system in
+      which every init expression reads earlier states only *)
+  Variable sts : list state.
+  Hypothesis Hperm : forall st, In st sts <-> In st (s_states sy).
+  Hypothesis Hnd : NoDup (map st_sym sts).
+  Hypothesis Hre : reads_earlier en sts.
 
   Definition f2 (v : expr) (done : list expr) (s : sig) : bool :=
     pos (u_init (sg_uses s)) && needs v s && negb (existsb (fun d => needs d s) done).
@@ -81,7 +88,7 @@ Section Wf2.
 
   (** the loop over the states *)
   Lemma init2_loop : forall l2 l1 done d,
-    s_states sy = l1 ++ l2 ->
+    sts = l1 ++ l2 ->
     (forall v, In v done <-> exists st, In st l1 /\ st_init st = Some v) ->
     Emitted en d (P2 l1 done) ->
     (forall st, In st l1 -> Has en d (st_sym st) 0) ->
@@ -95,27 +102,27 @@ Section Wf2.
   Proof.
     induction l2 as [|st r IH]; intros l1 done d Hsplit Hdone Hem HS HI; cbn zeta.
     - cbn [init_states2 script_check script_decls fold_left]. rewrite app_nil_r in Hsplit.
-      split; [reflexivity|]. split; [intros st Hst; apply HS; now rewrite <- Hsplit|]. split.
+      split; [reflexivity|]. split; [intros st Hst; apply HS; rewrite <- Hsplit; now apply Hperm|]. split.
       + intros s Hs HfI. apply HI; [assumption|assumption|].
         destruct (eo_init_sub en Ho s Hs HfI) as (v & Hv & Hsub).
         exists v. split; [|now apply needs_sub].
         apply Hdone. unfold init_exprs in Hv. apply in_flat_map in Hv. destruct Hv as (st & Hst & Hv').
-        exists st. fold sy in Hst. rewrite Hsplit in Hst. split; [assumption|].
+        exists st. fold sy in Hst. apply Hperm in Hst. rewrite Hsplit in Hst. split; [assumption|].
         destruct (st_init st); [destruct Hv' as [<-|[]]; reflexivity|destruct Hv'].
       + eapply Emitted_weaken; [exact Hem|]. intros e k [-> [(st & Hst & He)|(s & Hs & HfI & He & _)]].
-        * split; [reflexivity|]. left. exists st. rewrite Hsplit. auto.
+        * split; [reflexivity|]. left. exists st. split; [apply Hperm; rewrite Hsplit; assumption|assumption].
         * split; [reflexivity|]. right. exists s. auto.
-    - assert (Hst : In st (s_states sy)) by (rewrite Hsplit; apply in_or_app; right; now left).
-      assert (Hsplit' : s_states sy = (l1 ++ [st]) ++ r) by (rewrite <- app_assoc; exact Hsplit).
+    - assert (Hst : In st (s_states sy)) by (apply Hperm; rewrite Hsplit; apply in_or_app; right; now left).
+      assert (Hsplit' : sts = (l1 ++ [st]) ++ r) by (rewrite <- app_assoc; exact Hsplit).
       assert (Hnotl1 : ~ In st l1).
-      { pose proof (eb_states_nodup en Hb) as Hnd. fold sy in Hnd. rewrite Hsplit, map_app in Hnd. cbn [map] in Hnd.
-        apply NoDup_remove_2 in Hnd. intros H. apply Hnd. apply in_or_app. left. now apply in_map. }
+      { pose proof Hnd as Hnd'. rewrite Hsplit, map_app in Hnd'. cbn [map] in Hnd'.
+        apply NoDup_remove_2 in Hnd'. intros H. apply Hnd'. apply in_or_app. left. now apply in_map. }
       assert (Hfresh_st : forall P' : expr -> N -> Prop,
                  (forall e k, P' e k -> P2 l1 done e k \/ (exists s, In s (e_sigs en) /\ sg_expr s = e)) ->
                  forall k', k' = 0 \/ is_const_state en (st_sym st) -> ~ P' (st_sym st) k').
       { intros P' HP' k' _ HP. destruct (HP' _ _ HP) as [[_ [(st' & Hst' & He)|(s & Hs & _ & He & _)]]|(s & Hs & He)].
         - assert (st' = st).
-          { assert (Hin' : In st' (s_states sy)) by (rewrite Hsplit; apply in_or_app; now left).
+          { assert (Hin' : In st' (s_states sy)) by (apply Hperm; rewrite Hsplit; apply in_or_app; now left).
             pose proof (find_state_of en Hb st' Hin') as F1. pose proof (find_state_of en Hb st Hst) as F2.
             rewrite He in F1. congruence. }
           subst st'. contradiction.
@@ -128,7 +135,7 @@ Section Wf2.
         { unfold init_exprs. apply in_flat_map. exists st. split; [assumption|]. rewrite Ei. now left. }
         destruct (signals_block en Hb Ho Hn 0 (f2 v done) (P2 l1 done) d Hem) as (Hc1 & Hm1 & Hd1 & He1).
         { intros s Hs Hf [_ [(st' & Hst' & He)|(s0 & Hs0 & _ & He & Hnb)]].
-          - apply (state_not_sig en Hb st' s); [fold sy; rewrite Hsplit; apply in_or_app; now left|assumption|assumption].
+          - apply (state_not_sig en Hb st' s); [fold sy; apply Hperm; rewrite Hsplit; apply in_or_app; now left|assumption|assumption].
           - assert (s0 = s) by (now apply (in_sigs_unique en Hb)). subst s0.
             unfold f2 in Hf. rewrite !andb_true_iff in Hf. destruct Hf as [_ Hf]. apply negb_true_iff in Hf.
             apply needed_by_b in Hnb. congruence. }
@@ -218,20 +225,24 @@ Section Wf2.
         rewrite script_check_app, script_decls_app. fold d2. rewrite Hc2. cbn [andb]. rewrite Hc3. auto.
   Qed.
 
-  (** [init_at2] establishes the invariant of [unroll] *)
+  (** the init block over [sts] establishes the invariant of [unroll] *)
+  Definition init_block : list cmd :=
+    init_states2 en [] sts ++
+    define_signals en 0 (fun s => (pos (u_other (sg_uses s)) || sg_input s) && (u_init (sg_uses s) =? 0)).
+
   Lemma init2_ok :
-    let d' := script_decls [] (init_at2 en) in
-    script_check [] (init_at2 en) = true /\ Open en d' 0 /\ InitSigs en d' /\ Emitted en d' (Em en 0 0).
+    let d' := script_decls [] init_block in
+    script_check [] init_block = true /\ Open en d' 0 /\ InitSigs en d' /\ Emitted en d' (Em en 0 0).
   Proof.
-    unfold init_at2.
-    destruct (init2_loop (s_states sy) [] [] []) as (Hc1 & HS1 & HI1 & He1).
+    unfold init_block.
+    destruct (init2_loop sts [] [] []) as (Hc1 & HS1 & HI1 & He1).
     - reflexivity.
     - intros v. split; [intros []|intros (st & [] & _)].
     - apply Emitted_nil.
     - intros st [].
     - intros s _ _ (v & [] & _).
     - cbn zeta in *. fold sy.
-      set (d1 := script_decls [] (init_states2 en [] (s_states sy))) in *.
+      set (d1 := script_decls [] (init_states2 en [] sts)) in *.
       destruct (signals_block en Hb Ho Hn 0 fC _ d1 He1) as (Hc3 & Hm3 & Hd3 & He3).
       { intros s Hs Hf [_ [(st & Hst & He)|(s0 & Hs0 & HI & He)]].
         - now apply (state_not_sig en Hb st s).
@@ -264,9 +275,17 @@ Section Wf2.
           unfold fC in Hf. apply andb_true_iff in Hf. split; [tauto|lia].
   Qed.
 
-  Theorem script2_wf n : script_check [] (script2 en n) = true.
+  Theorem init_block_script_wf n : script_check [] (init_block ++ unrolls Fixed en 0 0 n) = true.
   Proof.
-    unfold script2. rewrite script_check_app. destruct init2_ok as (Hc & Hop & Hinit & Hem).
+    rewrite script_check_app. destruct init2_ok as (Hc & Hop & Hinit & Hem).
     rewrite Hc. cbn [andb]. apply (unrolls_ok en Hb Ho Hn 0 n 0); [lia|assumption|intros _; assumption|assumption].
   Qed.
 End Wf2.
+
+(** the second repair: the states in declaration order *)
+Theorem script2_wf en : enc_basic en -> enc_order en -> name_inj en -> inits_read_earlier en ->
+  forall n, script_check [] (script2 en n) = true.
+Proof.
+  intros Hb Ho Hn Hre n.
+  apply (init_block_script_wf en Hb Ho Hn (s_states (e_sys en))); [tauto|apply (eb_states_nodup en Hb)|exact Hre].
+Qed.
